@@ -1,5 +1,5 @@
 """C04 -- PolyTree solutions carry the same paths with correct nesting (DESIGN 6 C04)."""
-import json, os, sys, glob
+import json, os, sys, glob, time
 import vf
 sys.path.insert(0, os.path.join(vf.VERIF, 'gen'))
 import polys
@@ -92,7 +92,26 @@ def enum_ops():
 
 
 REFUTED_WITNESS = 'OPS 1 1 S 0 0'        # C04_owner_forest_refuted_without_wf: [OpNew; OpSetOwner 0 0]
-REFUTED_WITNESS2 = 'OPS 2 3 P 0 0 A 0 0 K 1 0'      # OutRec 0: pts = nullptr, splits = [0]; CheckSplitOwner(or_1, or_0->splits)
+REFUTED_WITNESS2 = 'OPS 2 3 P 0 0 A 0 0 K %d 1 0'   # OutRec 0: pts = nullptr, splits = [0]; CheckSplitOwner(or_1, or_0->splits)
+
+
+def witness2(ctx, env):
+    """the witness of C04_check_split_terminates_refuted_pointless_cycle on the real CheckSplitOwner: OutRec 0 has no points
+    and its split list contains itself.  In the unguarded shape: unbounded recursion (stack overflow) in the code, out of
+    fuel in the model; in the guarded shape (the repair): both return, with the same answer."""
+    if env.dead or env.shape is None:
+        return
+    g = (env.shape >> 2) & 1
+    line = REFUTED_WITNESS2 % g
+    p2 = vf.run_lines(env.exes['owner'], [line], timeout=60)
+    m2 = vf.run_lines(env.oracle, [line], timeout=60).stdout.strip()
+    ctx.cov['refuted_witness2_replayed'] = dict(line=line, cpp_returncode=p2.returncode, cpp=p2.stdout.strip()[-60:], model=m2[-60:])
+    ok = (p2.returncode != 0 and m2.endswith('HANG')) if g == 0 else (p2.returncode == 0 and p2.stdout.strip() == m2)
+    if not ok:
+        ctx.violation('tie.owner-ops', 'CheckSplitOwner on a point-less OutRec whose split list contains itself (witness of '
+                      'C04_check_split_terminates_refuted_pointless_cycle; model shape "%s"): real rc=%s %s / model %s'
+                      % (SHAPES[env.shape], p2.returncode, p2.stdout.strip()[-80:], m2[-80:]),
+                      replay=dict(kind='ops', line=line, cpp=p2.stdout.strip(), model=m2), nofail=True)
 
 
 def phase_ops(ctx, env, n):
@@ -104,15 +123,6 @@ def phase_ops(ctx, env, n):
     if w != wm or ': 0 ;' not in w:
         ctx.violation('tie.owner-ops', 'the witness of C04_owner_forest_refuted_without_wf (SetOwner(x, x) makes x own itself) is not reproduced '
                       'by the real SetOwner: C++ %s / model %s' % (w[:120], wm[:120]), replay=dict(kind='ops', line=REFUTED_WITNESS, cpp=w, model=wm), nofail=True)
-    # the witness of C04_check_split_terminates_refuted_pointless_cycle on the real CheckSplitOwner: OutRec 0 has no points and
-    # its split list contains itself -> unbounded recursion (stack overflow) in the code, out of fuel in the model
-    p2 = vf.run_lines(env.exes['owner'], [REFUTED_WITNESS2], timeout=60)
-    m2 = vf.run_lines(env.oracle, [REFUTED_WITNESS2], timeout=60).stdout.strip()
-    ctx.cov['refuted_witness2_replayed'] = dict(line=REFUTED_WITNESS2, cpp_returncode=p2.returncode, model=m2)
-    if p2.returncode == 0 or not m2.endswith('HANG'):
-        ctx.violation('tie.owner-ops', 'the witness of C04_check_split_terminates_refuted_pointless_cycle (a point-less OutRec whose split list '
-                      'contains itself) is not reproduced: real CheckSplitOwner rc=%s %s / model %s' % (p2.returncode, p2.stdout.strip()[:80], m2[:80]),
-                      replay=dict(kind='ops', line=REFUTED_WITNESS2, cpp=p2.stdout.strip(), model=m2), nofail=True)
     lines = enum_ops() + [rand_ops(rng) for _ in range(n)]
     a, fa = vf.par_lines(env.exes['owner'], lines, timeout=120)
     if fa:
@@ -269,9 +279,12 @@ def split_tree_answer(line):
 # CheckSplitOwner can visit starting from A's split list.
 #   container-among-own-splits      T in SC(X): the container was split off X (or is nested in such a path); the search
 #                                   only ever looks at the splits of X's owners, never at X's own
-#   owner-accepted-before-its-splits  T in SC(P): a point-less split resolved (GetRealOutRec) to P itself and P was accepted
-#                                   inside CheckSplitOwner before the remaining splits of P were tested
-#   origin-of-split-not-searched    X in SC(T): X was split off T (or absorbed such a split) but its owner chain does not
+#   owner-accepted-inside-split-search  T is on X's owner chain or in SC(A) for an OutRec A of that chain: inside CheckSplitOwner
+#                                   a point-less split resolved (GetRealOutRec) to an OutRec further up the chain, which contains X
+#                                   and was accepted before the nearer candidates (the remaining splits, the owner whose splits
+#                                   were being searched) were tested
+#   origin-of-split-not-searched    X in SC(T), or X is in the split list of an OutRec that has lost its points: X was split off
+#                                   T (or absorbed such a split, or its origin was merged away) but its owner chain does not
 #                                   lead to T, so T is never tested
 # A flagged polygon (or, for clause 33, one of its siblings) that crosses itself -- two of its edges properly cross, or it
 # runs around some points clockwise and around others counter-clockwise (crossing at a vertex) -- gets tree.self-crossing-ring.
@@ -437,9 +450,20 @@ def classify_nesting(env, c, ct, fr, pc, rs, prec, nodes, k):
             return None
         if T in _split_closure(st, X):
             return 'container-among-own-splits'
-        if P >= 0 and T in _split_closure(st, P):
-            return 'owner-accepted-before-its-splits'
+        # the dumped owner chain of X: an owner (or, through a point-less split, an owner further up) was accepted although T is
+        # reachable from the split list of one of them
+        o, steps = st['owner'][X], 0
+        while o >= 0 and steps <= len(st['owner']):
+            if o == T or T in _split_closure(st, o):
+                return 'owner-accepted-inside-split-search'
+            o = st['owner'][o]; steps += 1
         if X in _split_closure(st, T):
+            return 'origin-of-split-not-searched'
+        # ... or the OutRec X was split off has lost its points since (its ring went elsewhere)
+        chain, o = set(), st['owner'][X]
+        while o >= 0 and o not in chain:
+            chain.add(o); o = st['owner'][o]
+        if T not in chain and any(X in st['splits'][y] and not st['pts'][y] for y in range(len(st['pts']))):
             return 'origin-of-split-not-searched'
     except Exception:
         return None
@@ -494,11 +518,84 @@ class Env:
     pass
 
 
+# ----------------------------------------------------------------------------- crashes and hangs of the code under test
+def state_line_of(line):
+    """the STATE command (ownership dump without BuildTree64) for the input of an API64 / APID / TREE line"""
+    t = line.split()
+    if t[0] in ('API64', 'TREE'):
+        return 'STATE ' + ' '.join(t[1:])
+    if t[0] == 'APID':
+        sc = 10 ** int(t[1])
+        ct, fr, pc, rs = t[2:6]
+        S, pos = vf.parse_paths(t, 6); O, pos = vf.parse_paths(t, pos); C, pos = vf.parse_paths(t, pos)
+        f = lambda ps: vf.fmt_paths([[(x * sc, y * sc) for x, y in q] for q in ps])
+        return 'STATE %s %s %s %s %s %s %s' % (ct, fr, pc, rs, f(S), f(O), f(C))
+    return None
+
+
+def crash_key(env, line):
+    """crash.pointless-split-cycle when the ownership state the tree would be built from contains a cycle of point-less
+    OutRecs through split lists (CheckSplitOwner then recurses without bound: C04_check_split_terminates_refuted_pointless_cycle),
+    else the plain crash.polytree"""
+    try:
+        sl = state_line_of(line)
+        if sl:
+            q = vf.run_lines(env.exes['owner'], [sl], timeout=60)
+            st = parse_tree_answer(q.stdout.strip()) if q.returncode == 0 else None
+            if st is not None and _pointless_cycle(st):
+                return 'crash.pointless-split-cycle'
+    except Exception:
+        pass
+    return 'crash.polytree'
+
+
+def robust_lines(ctx, env, lines, what):
+    """par_lines that survives a few crashing / hanging inputs: they are localised by bisection, reported once per key with
+    the input, and the rest of the phase is evaluated without them.  -> list aligned with `lines` (None for the bad ones), or
+    None when the phase cannot be evaluated (env.dead is set)."""
+    exe = env.exes['owner']
+    outs, fails = vf.par_lines(exe, lines, timeout=env.tmo)
+    if not fails:
+        return outs
+    bad, t0 = [], time.time()
+
+    def rec(ls):
+        if len(bad) >= 4 or time.time() - t0 > (240 if ctx.quick else 1200):
+            return
+        p = vf.run_lines(exe, ls, timeout=max(30, env.tmo // 5))
+        if p.returncode == 0 and len(p.stdout.split('\n')) - 1 == len(ls):
+            return
+        if len(ls) == 1:
+            bad.append((ls[0], p.returncode, (p.stderr or '')[-200:]))
+            return
+        h = len(ls) // 2
+        rec(ls[:h]); rec(ls[h:])
+    for f in fails[:3]:
+        rec(f[0])
+    if not bad:
+        ctx.violation('crash.polytree', '%s crashed or hung (rc=%s) on a batch of inputs but on none of them alone: %s'
+                      % (what, fails[0][1], fails[0][2][-300:]), replay=dict(kind='line', line=fails[0][0][:3]))
+        env.dead = True
+        return None
+    for l, rc, err in bad:
+        key = crash_key(env, l)
+        ctx.hist('crashing_inputs_by_key', key)
+        ctx.violation(key, '%s %s (rc=%s) %s: %s' % (what, 'hung' if rc == -9 else 'crashed', rc, err[-120:], l[:160]), replay=dict(kind='line', line=l))
+    badset = set(l for l, _, _ in bad)
+    keep = [l for l in lines if l not in badset]
+    outs2, fails2 = vf.par_lines(exe, keep, timeout=env.tmo)
+    if fails2:
+        env.dead = True          # more crashing inputs than we are willing to localise: the ones found are reported
+        return None
+    it = iter(outs2)
+    return [None if l in badset else next(it) for l in lines]
+
+
 def setup(ctx):
     env = Env()
     env.exes = {}
     env.shape = None
-    env.tie_miss = {v: [] for v in range(4)}
+    env.tie_miss = {v: [] for v in range(NSHAPES)}
     env.dead = False
     env.tmo = 150 if ctx.quick else 1200      # a whole-run phase takes seconds; a hang must not cost the budget
     env.oracle = vf.oracle_build('tree')
@@ -520,7 +617,7 @@ def eval_one(env, c, ct, fr, pc, rs, prec=None, tie=True, shape=None):
     p = vf.run_lines(env.exes['owner'], [api_line(c, ct, fr, pc, rs, prec)], timeout=60)
     r = parse_api(p.stdout.strip()) if p.returncode == 0 else None
     if r is None:
-        keys.add('crash.polytree'); det['crash'] = 'rc=%s %s %s' % (p.returncode, p.stdout[:200], p.stderr[-300:])
+        keys.add(crash_key(env, api_line(c, ct, fr, pc, rs, prec))); det['crash'] = 'rc=%s %s %s' % (p.returncode, p.stdout[:200], p.stderr[-300:])
         return keys, det
     if not r['ok']:
         keys.add('execute-returned-false')
@@ -536,10 +633,10 @@ def eval_one(env, c, ct, fr, pc, rs, prec=None, tie=True, shape=None):
         q = vf.run_lines(env.exes['owner'], [tree_line(c, ct, fr, pc, rs)], timeout=60)
         parts = split_tree_answer(q.stdout.strip()) if q.returncode == 0 else None
         if parts is None and not q.stdout.startswith('fail'):
-            keys.add('crash.polytree')
+            keys.add(crash_key(env, tree_line(c, ct, fr, pc, rs)))
         elif parts:
             # shapes of RecursiveCheckOwners the model is asked for: the one the whole run established, else all four
-            shapes = [shape] if shape is not None else ([env.shape] if getattr(env, 'shape', None) is not None else list(range(4)))
+            shapes = [shape] if shape is not None else ([env.shape] if getattr(env, 'shape', None) is not None else list(range(NSHAPES)))
             ms = vf.run_lines(env.oracle, ['MTREE %d %s' % (v, parts[0]) for v in shapes], timeout=120).stdout.strip().split('\n')
             if parts[1] not in ms:
                 keys.add('tie.tree'); det['model'] = ms[0]; det['cpp'] = parts[1]
@@ -629,16 +726,14 @@ def phase_api(ctx, env, cases, label, precs=(None,), combos=None):
                     ctx.count('polytreeD_skipped_out_of_range')
                     continue
                 jobs.append((ci, ct, fr, pc, rs, prec)); lines.append(api_line(c, ct, fr, pc, rs, prec))
-    outs, fails = vf.par_lines(env.exes['owner'], lines, timeout=env.tmo)
-    if fails:
-        l, rc, err = vf.isolate_failure(env.exes['owner'], fails[0][0], timeout=30)
-        ctx.violation('crash.polytree', 'PolyTree execution crashed or hung (rc=%s): %s' % (rc if l else fails[0][1], (err or fails[0][2])[-300:]),
-                      replay=dict(kind='line', line=l or fails[0][0][:3]))
-        env.dead = True
+    outs = robust_lines(ctx, env, lines, 'PolyTree execution')
+    if outs is None:
         return
     chk, cidx = [], []
     parsed = {}
     for k, (j, line) in enumerate(zip(jobs, outs)):
+        if line is None:
+            continue
         r = parse_api(line)
         ctx.count('evaluations')
         if r is None:
@@ -696,15 +791,13 @@ def phase_tie_tree(ctx, env, cases, label, combos=None):
         for ct, fr in cl:
             pc, rs = rng.below(2), rng.below(2)
             jobs.append((ci, ct, fr, pc, rs)); lines.append(tree_line(c, ct, fr, pc, rs))
-    outs, fails = vf.par_lines(env.exes['owner'], lines, timeout=env.tmo)
-    if fails:
-        l, rc, err = vf.isolate_failure(env.exes['owner'], fails[0][0], timeout=30)
-        ctx.violation('crash.polytree', 'BuildTree64 crashed or hung (rc=%s): %s' % (rc if l else fails[0][1], (err or fails[0][2])[-300:]),
-                      replay=dict(kind='line', line=l or fails[0][0][:3]))
-        env.dead = True
+    outs = robust_lines(ctx, env, lines, 'BuildTree64')
+    if outs is None:
         return
     ml, midx = [], []
     for k, line in enumerate(outs):
+        if line is None:
+            continue
         parts = split_tree_answer(line)
         if parts is None:
             continue
@@ -721,38 +814,39 @@ def phase_tie_tree(ctx, env, cases, label, combos=None):
             ctx.count('tie_tree_skipped_degenerate_bounds')
             continue
         # hypothesis of C04_check_split_terminates on the states the sweep really produces: no chain of point-less OutRecs
-        # through split lists returns to itself
+        # through split lists returns to itself (where it does, the snapshot shape of CheckSplitOwner can recurse without bound;
+        # inputs on which it actually does are reported as crash.pointless-split-cycle)
         st = parse_tree_answer(line)
         if st is not None:
             ctx.count('states_checked_for_pointless_split_cycles')
             if _pointless_cycle(st):
-                ci, ct, fr, pc, rs = jobs[k]
-                ctx.violation('owner.pointless-split-cycle', '%s/%s %s: the sweep left a cycle of point-less OutRecs through split lists '
-                              '(CheckSplitOwner can recurse without bound, C04_check_split_terminates_refuted_pointless_cycle)'
-                              % (CT[ct], FR[fr], cases[ci]['kind']),
-                              replay=dict(kind='case', case=dict(S=cases[ci]['S'], O=cases[ci].get('O', []), C=cases[ci]['C']),
-                                          ct=ct, fr=fr, pc=pc, rs=rs, prec=None, key='owner.pointless-split-cycle'), nofail=True)
+                ctx.count('states_with_a_pointless_split_cycle')
         ctx.hist('state_outrecs', min(n, 40) // 4 * 4)
         ctx.count('states_with_splits', 1 if nsplit else 0)
         ml.append(parts[0]); midx.append((k, parts[1]))
     res = []
-    for v in range(4):
+    for v in range(NSHAPES):
         rv, f2 = vf.par_lines(env.oracle, ['MTREE %d %s' % (v, st) for st in ml], timeout=900)
         if f2:
             raise vf.Infra('oracle MTREE failed: %s' % f2[0][2][:300])
         res.append(rv)
     for i, (k, cpp) in enumerate(midx):
         ctx.count('tie_tree_runs')
-        ans = [res[v][i] for v in range(4)]
+        ans = [res[v][i] for v in range(NSHAPES)]
         if len(set(ans)) > 1:
             ctx.count('tie_tree_runs_that_tell_the_shapes_apart')
-        for v in range(4):
+        for v in range(NSHAPES):
             if ans[v] != cpp:
                 env.tie_miss[v].append((label, cases[jobs[k][0]], jobs[k], cpp, ans[v]))
 
 
-SHAPES = {0: 'snapshot (owner chain only)', 1: 'own splits first', 2: 'owner marked before its splits',
-          3: 'own splits first + owner marked before its splits (triage/C04-owner-search.patch)'}
+def shape_name(v):
+    parts = [n for bit, n in ((1, 'own splits first'), (2, 'owner chain marked'), (4, 'point-less descent guarded')) if v & bit]
+    return 'snapshot' if not parts else ' + '.join(parts) + (' (= triage/C04-owner-search.patch)' if v == 7 else '')
+
+
+NSHAPES = 8
+SHAPES = {v: shape_name(v) for v in range(NSHAPES)}
 
 
 def decide_tie(ctx, env):
@@ -760,13 +854,13 @@ def decide_tie(ctx, env):
     proved for every shape); otherwise the ownership model no longer describes the code."""
     if not ctx.cov.get('tie_tree_runs'):
         return
-    agreeing = [v for v in range(4) if not env.tie_miss[v]]
-    ctx.cov['tie_tree_disagreements_by_model_shape'] = {SHAPES[v]: len(env.tie_miss[v]) for v in range(4)}
+    agreeing = [v for v in range(NSHAPES) if not env.tie_miss[v]]
+    ctx.cov['tie_tree_disagreements_by_model_shape'] = {SHAPES[v]: len(env.tie_miss[v]) for v in range(NSHAPES)}
     if agreeing:
         env.shape = agreeing[0]
         ctx.cov['model_shape_matched'] = [SHAPES[v] for v in agreeing]
         return
-    v = min(range(4), key=lambda w: len(env.tie_miss[w]))
+    v = min(range(NSHAPES), key=lambda w: len(env.tie_miss[w]))
     env.shape = v
     label, c, (ci, ct, fr, pc, rs), cpp, m = env.tie_miss[v][0]
     try:
@@ -827,6 +921,7 @@ def run(ctx):
     phase_tie_tree(ctx, env, lat, 'lattice', combos=3)
     phase_tie_tree(ctx, env, gp, 'genpos', combos=6)
     decide_tie(ctx, env)
+    witness2(ctx, env)
     phase_api(ctx, env, fixed_api, 'fixed', precs=(None, 2))
     phase_api(ctx, env, rect, 'rect', precs=(None, 0, 1, 2), combos=8)
     phase_api(ctx, env, lat, 'lattice', precs=(None,), combos=8)
@@ -860,6 +955,7 @@ def run(ctx):
 
 def replay(ctx, path):
     r = json.load(open(path))['replay']
+    getattr(vf, 'alt_sync', lambda: None)()
     env = setup(ctx)
     ctx.count('evaluations'); ctx.cov['distinct_nontrivial'] = 1
     if r.get('kind') in ('ops', 'line'):
@@ -867,7 +963,7 @@ def replay(ctx, path):
         p = vf.run_lines(env.exes['owner'], [line], timeout=30)
         print('C++  :', p.stdout.strip()[:2000], p.stderr[-300:])
         if p.returncode != 0:
-            ctx.violation('owner.ops-hang-or-crash' if r['kind'] == 'ops' else 'crash.polytree', 'replayed: rc=%s' % p.returncode, replay=r)
+            ctx.violation('owner.ops-hang-or-crash' if r['kind'] == 'ops' else crash_key(env, line), 'replayed: rc=%s' % p.returncode, replay=r)
         elif r['kind'] == 'ops':
             m = vf.run_lines(env.oracle, [line]).stdout.strip()
             print('model:', m[:2000])
